@@ -163,12 +163,12 @@ func cmdCheck(args []string) {
 		if err != nil {
 			// the tree does not build: not a property verdict; report as broken input
 			fmt.Printf("ERROR: cannot load %s for GOARCH=%s: %v\n", *repo, g.Arch, err)
-			os.Exit(2)
+			func() { os.RemoveAll(workDir); os.Exit(2) }()
 		}
 		eng.timeoutS = timeout
 		if err := eng.LoadContracts(ContractFilesArch(*repo, g.Arch, filepath.Join(*vdir, "spec"))); err != nil {
 			fmt.Println("ERROR: contracts:", err)
-			os.Exit(2)
+			func() { os.RemoveAll(workDir); os.Exit(2) }()
 		}
 		engines[g.Arch] = eng
 		var groupObs []*Oblig
@@ -368,11 +368,11 @@ func cmdCheck(args []string) {
 			eng, err = NewEngine(*repo, "", "verif")
 			if err != nil {
 				fmt.Printf("ERROR: cannot load %s: %v\n", *repo, err)
-				os.Exit(2)
+				func() { os.RemoveAll(workDir); os.Exit(2) }()
 			}
 			if err := eng.LoadContracts(ContractFilesArch(*repo, "", filepath.Join(*vdir, "spec"))); err != nil {
 				fmt.Println("ERROR: contracts:", err)
-				os.Exit(2)
+				func() { os.RemoveAll(workDir); os.Exit(2) }()
 			}
 		}
 		an := NewCtAnalysis(eng)
@@ -445,11 +445,11 @@ func cmdCheck(args []string) {
 			eng, err = NewEngine(*repo, earch, "verif")
 			if err != nil {
 				fmt.Printf("ERROR: cannot load %s for GOARCH=%s: %v\n", *repo, earch, err)
-				os.Exit(2)
+				func() { os.RemoveAll(workDir); os.Exit(2) }()
 			}
 			if err := eng.LoadContracts(ContractFilesArch(*repo, earch, filepath.Join(*vdir, "spec"))); err != nil {
 				fmt.Println("ERROR: contracts:", err)
-				os.Exit(2)
+				func() { os.RemoveAll(workDir); os.Exit(2) }()
 			}
 			engines[earch] = eng
 		}
@@ -505,11 +505,11 @@ func cmdCheck(args []string) {
 			eng, err = NewEngine(*repo, "", "verif")
 			if err != nil {
 				fmt.Printf("ERROR: cannot load %s: %v\n", *repo, err)
-				os.Exit(2)
+				func() { os.RemoveAll(workDir); os.Exit(2) }()
 			}
 			if err := eng.LoadContracts(ContractFilesArch(*repo, "", filepath.Join(*vdir, "spec"))); err != nil {
 				fmt.Println("ERROR: contracts:", err)
-				os.Exit(2)
+				func() { os.RemoveAll(workDir); os.Exit(2) }()
 			}
 			engines[""] = eng
 		}
@@ -725,6 +725,7 @@ func cmdCheck(args []string) {
 		os.WriteFile(filepath.Join(*vdir, "evidence", id+".json"), b, 0o644)
 	}
 	if violations > 0 {
+		os.RemoveAll(workDir)
 		os.Exit(1)
 	}
 }
